@@ -980,10 +980,13 @@ def _get_gp_training_options(
     c = 3 * a
     d = options["gp_train_n_init"]
     eff_starting_points = optim_state["eff_starting_points"]
-    x = (n_eff - eff_starting_points) / (
+    n_eff_range = (
         min(options["max_fun_evals"], options["n_train_max"])
         - eff_starting_points
     )
+    if n_eff_range == 0:
+        n_eff_range = 1  # budget exhausted by the starting points: avoid 0/0
+    x = (n_eff - eff_starting_points) / n_eff_range
     f = lambda x_: a * x_**3 + b * x**2 + c * x + d
     init_N = max(round(f(x)), options["gp_train_n_init_final"])
     if (
